@@ -167,7 +167,7 @@ def drive_module(rec, quick):
         mod = L.module(n, NTT120, MASK_NONE)
         for (a_size, d_size, r_size) in [(s, d, r) for s in (0, 1, 3) for d in (0, 1, 2, 4) for r in (0, 1, 3, 5)]:
             for tmp_a in (False, True):
-                a_sl = n + rng.choice([0, 1, 8])
+                a_sl = n + rng.choice([0, 1, 8]) if a_size != 1 else rng.choice([0, 0, n, n + 8])     # one limb: the stride is not used
                 A = Buf(8 * ((a_size - 1) * a_sl + n) if a_size else 0, fill=0x3C)
                 vals = [np.array([rng.choice([-(1 << 63), (1 << 63) - 1, 0, 1, -1, rng.randrange(-(1 << 63), 1 << 63)]) for _ in range(n)],
                                  dtype=np.int64) for _ in range(a_size)]
